@@ -5,7 +5,8 @@
 
       getField        string.Formatter.get_field / get_value with kwargs = Context, args = None
       convertField    string.Formatter.convert_field
-      formatField     format(value, spec) = string.Formatter.format_field, on the stated sub-language
+      formatField     format(value, spec) = string.Formatter.format_field: Python/formatter_unicode.c for
+                      str / int / bool on the whole mini-language (grouping, precision, #, b o x X c n, z)
       vfmt / vLoop    string.Formatter._vformat (the base-class method `_format_keep_type` uses to
                       expand a nested format spec; recursion_depth counted exactly)
       ktField/ktLoop/ktFinish/fmtKeepType   RecursiveFormatter._format_keep_type
@@ -15,8 +16,12 @@
 
   Recursion that can diverge in the code (`a: '{a}'`) is fuel-indexed; `OutOfFuel` is the
   distinguished "did not terminate" result. The id-keyed `memo` of
-  `_get_formatted_iterable` is not modelled: on tree values with pure `!py` expressions it is
-  unobservable (it only short-cuts a computation that would give an equal result).
+  `_get_formatted_iterable` is not part of this tree-level model. That it is not an observable is a
+  THEOREM about the object-level model, not an assumption: `Props/C09.lean` `fmtH_memo_sound` /
+  `fmtH_memo_independent` (any memo whose entries hold the formatted value of the CURRENT object at their
+  address gives the memo-free result) — as long as no address of a memoised object is re-used while the
+  memo lives, which the code guarantees by keeping a reference (/repo 2cfa9de; counter-model
+  `PypyrModel/FmtFree.lean`, `memo_keeps_alive_sound`, `memo_reuse_breaks_soundness`).
   Input outside the modelled domain yields the distinguished error `OutOfDomain`, which the
   driver turns into a protocol-level reject.
 -/
@@ -91,8 +96,9 @@ def getItem (obj : Val) (k : Key) : Except Exc Val :=
 
 /-- Names that *are* attributes of some modelled Python type (`dir()` of None, bool, int, float,
     str, bytes, list, tuple, dict, set, frozenset, SicString, PyString, Jsonify, Opaque) other than
-    dunder names. `getattr` with such a name is outside the modelled domain. The harness checks
-    this table against the running interpreter at start-up. -/
+    dunder names. `getattr` with such a name is outside the modelled domain — except `value` and
+    `yaml_tag`, which `getAttr` models. The harness checks this table against the running interpreter
+    at start-up. -/
 def knownAttrs : List String :=
   ["add", "append", "as_integer_ratio", "bit_count", "bit_length", "capitalize", "casefold", "center",
    "clear", "conjugate", "copy", "count", "decode", "denominator", "difference", "difference_update",
@@ -112,14 +118,32 @@ def knownAttrs : List String :=
 def attrInDomain (n : List Char) : Bool :=
   !(n.take 2 == ['_', '_']) && !knownAttrs.contains (String.ofList n)
 
-/-- `getattr(obj, name)`: only the harness's opaque objects have a modelled attribute (`ident`). -/
+def errNoAttr (obj : Val) (n : List Char) : Exc :=
+  ⟨"AttributeError", "'" ++ typeName obj ++ "' object has no attribute '" ++ String.ofList n ++ "'"⟩
+
+/-- `getattr(obj, name)`.
+    * the special tags of `pypyr/dsl.py` have the instance attribute `value` (`SpecialTagDirective.__init__`:
+      the untouched scalar — the text of a `!sic`, the source text of a `!py` (`PyExpr.src`, the renderer the
+      harness builds `PyString`s with), the payload of a `!jsonify`) and the class attribute `yaml_tag`
+      (`'!sic'`, `'!py'`, `'!jsonify'`); no other modelled kind has an attribute of either name;
+    * the harness's opaque objects have `ident`;
+    * any other name that *is* an attribute of some modelled type (`knownAttrs`: bound methods, `real`,
+      `Jsonify.scalar`, …) and every dunder name is outside the modelled domain;
+    * everything else is the AttributeError. -/
 def getAttr (obj : Val) (n : List Char) : Except Exc Val :=
-  if !attrInDomain n then .error (outOfDomain ("attribute " ++ String.ofList n))
+  let name := String.ofList n
+  if name = "value" || name = "yaml_tag" then
+    match obj with
+    | .sic s => .ok (.str (if name = "value" then s else "!sic"))
+    | .py e => .ok (.str (if name = "value" then e.src else "!py"))
+    | .jsonify v => if name = "value" then .ok v else .ok (.str "!jsonify")
+    | other => .error (errNoAttr other n)
+  else if !attrInDomain n then .error (outOfDomain ("attribute " ++ name))
   else match obj with
     | .obj id =>
       if n = ['i', 'd', 'e', 'n', 't'] then .ok (.int id)
-      else .error ⟨"AttributeError", "'Opaque' object has no attribute '" ++ String.ofList n ++ "'"⟩
-    | other => .error ⟨"AttributeError", "'" ++ typeName other ++ "' object has no attribute '" ++ String.ofList n ++ "'"⟩
+      else .error (errNoAttr obj n)
+    | other => .error (errNoAttr other n)
 
 /-- The `for is_attr, i in rest` loop of `get_field`; `err` is what the lazy `rest` iterator raises
     after its last good accessor. -/
@@ -207,62 +231,126 @@ def convertField (v : Val) : Option Char → Except Exc Val
     else if c = 'a' then (if reprOk v then .ok (.str (asciiEscape (pyRepr v))) else .error errReprDomain)
     else .error (valueError ("Unknown conversion specifier " ++ String.singleton c))
 
-/-! ## `format(value, spec)` on the sub-language `[[fill]align][sign][0][width][type]` -/
+/-! ## `format(value, spec)`
+
+CPython's `Python/formatter_unicode.c`, function by function, for `str`, `int` and `bool` values and the
+whole standard format-spec mini-language
+
+    [[fill]align][sign]["z"]["#"]["0"][width][grouping]["." precision][type]
+
+Outside the modelled domain (`OutOfDomain`, see `specInDomain`): any non-empty spec on a float; the
+float presentation types `e E f F g G %` on an int (they convert to float first); a non-ASCII character
+anywhere but in the fill position (Unicode decimal digits count as width digits in CPython); a width or
+precision of more than 4 digits; the presentation type `c` on a surrogate code point (no Lean `Char`).
+The type `n` is modelled under the C locale for `LC_NUMERIC` (no grouping: the harness checks
+`locale.localeconv()` at start-up). -/
 
 def isAlign (c : Char) : Bool := c = '<' || c = '>' || c = '=' || c = '^'
 def isSign (c : Char) : Bool := c = '+' || c = '-' || c = ' '
 
-/-- Result of `parse_internal_render_format_spec` restricted to the sub-language. -/
+/-- `InternalFormatSpec` after `parse_internal_render_format_spec`. -/
 structure FSpec where
   fill : Char
   fillGiven : Bool
-  align : Option Char
+  align : Option Char       -- `none` = the default alignment of the type (`<` for str, `>` for numbers)
   sign : Option Char
+  noNeg0 : Bool := false    -- the `z` flag
+  alt : Bool := false       -- the `#` flag
   zero : Bool               -- the `0` flag was consumed (no explicit fill)
   width : Nat               -- 0 = none (a width of 0 pads nothing either)
+  sep : Option Char := none -- `,` or `_`
+  prec : Option Nat := none
   type : Option Char
   deriving Repr, DecidableEq, Inhabited
 
 inductive SpecParse where
-  | ood (why : String)      -- uses `z # , _ .`, a non-ASCII char outside the fill position, or a width of more than 4 digits
-  | invalid                 -- CPython: "Invalid format specifier"
+  /-- outside the modelled domain: a non-ASCII char outside the fill position, or a width / precision of more than 4 digits -/
+  | ood (why : String)
+  /-- CPython: "Invalid format specifier '…' for object of type '…'" (more than one char left where the type goes) -/
+  | invalid
+  /-- a ValueError raised while parsing, whose text does not depend on the object -/
+  | err (e : Exc)
   | ok (f : FSpec)
   deriving Repr, DecidableEq, Inhabited
 
 def digitsVal (cs : List Char) : Nat := cs.foldl (fun acc c => acc * 10 + (c.toNat - 48)) 0
 
-def parseSpecTail (fill : Char) (fillGiven : Bool) (align : Option Char) (rest : List Char) : SpecParse :=
+def errCommaUnderscore : Exc := valueError "Cannot specify both ',' and '_'."
+
+/-- `invalid_thousands_separator_type`. -/
+def errSepType (sep t : Char) : Exc :=
+  if t.toNat > 32 ∧ t.toNat < 128 then
+    valueError ("Cannot specify '" ++ String.singleton sep ++ "' with '" ++ String.singleton t ++ "'.")
+  else
+    valueError ("Cannot specify '" ++ String.singleton sep ++ "' with '\\x" ++ String.ofList (Nat.toDigits 16 t.toNat) ++ "'.")
+
+/-- the part of `parse_internal_render_format_spec` after fill and alignment; `dflt` is the default
+    presentation type of the object (`s` / `d`), which the grouping check looks at. -/
+def parseSpecTail (dflt : Char) (fill : Char) (fillGiven : Bool) (align : Option Char) (rest : List Char) : SpecParse :=
   if rest.any (fun c => c.toNat ≥ 128) then .ood "non-ASCII character in format spec" else
   let (sign, rest) := match rest with
     | c :: r => if isSign c then (some c, r) else (none, rest)
     | [] => (none, rest)
-  match rest with
-  | 'z' :: _ => .ood "z flag"
-  | '#' :: _ => .ood "# flag"
-  | _ =>
-    let (zero, rest) := match rest with
-      | '0' :: r => if fillGiven then (false, rest) else (true, r)
-      | _ => (false, rest)
-    let ds := rest.takeWhile isAsciiDigit
-    let rest := rest.dropWhile isAsciiDigit
-    if ds.length > 4 then .ood "width of more than 4 digits" else
-    match rest with
-    | [] => .ok ⟨if zero then '0' else fill, fillGiven, align, sign, zero, digitsVal ds, none⟩
-    | [t] =>
-      if t = ',' || t = '_' || t = '.' then .ood "grouping/precision"
-      else .ok ⟨if zero then '0' else fill, fillGiven, align, sign, zero, digitsVal ds, some t⟩
-    | t :: _ =>
-      if t = ',' || t = '_' || t = '.' then .ood "grouping/precision" else .invalid
+  let (noNeg0, rest) := match rest with
+    | 'z' :: r => (true, r)
+    | _ => (false, rest)
+  let (alt, rest) := match rest with
+    | '#' :: r => (true, r)
+    | _ => (false, rest)
+  let (zero, rest) := match rest with
+    | '0' :: r => if fillGiven then (false, rest) else (true, r)
+    | _ => (false, rest)
+  let ds := rest.takeWhile isAsciiDigit
+  let rest := rest.dropWhile isAsciiDigit
+  if ds.length > 4 then .ood "width of more than 4 digits" else
+  -- `,` then `_` (or one of them); a `,` after `_` is the overlap error too
+  let (comma, rest) := match rest with
+    | ',' :: r => (true, r)
+    | _ => (false, rest)
+  match (match rest with
+    | '_' :: r => if comma then (Except.error errCommaUnderscore : Except Exc (Option Char × List Char)) else .ok (some '_', r)
+    | _ => .ok (if comma then some ',' else none, rest)) with
+  | .error e => .err e
+  | .ok (sep, rest) =>
+    match (match rest with
+      | ',' :: _ => if sep = some '_' then (some errCommaUnderscore) else none
+      | _ => none) with
+    | some e => .err e
+    | none =>
+      -- precision
+      match (match rest with
+        | '.' :: r =>
+          let ps := r.takeWhile isAsciiDigit
+          if ps = [] then (Except.error (valueError "Format specifier missing precision") : Except Exc (Option (List Char) × List Char))
+          else .ok (some ps, r.dropWhile isAsciiDigit)
+        | _ => .ok (none, rest)) with
+      | .error e => .err e
+      | .ok (ps, rest) =>
+        if (ps.getD []).length > 4 then .ood "precision of more than 4 digits" else
+        match rest with
+        | _ :: _ :: _ => .invalid
+        | _ =>
+          let ty : Option Char := rest.head?
+          let t := ty.getD dflt
+          let f : FSpec := { fill := if zero then '0' else fill, fillGiven := fillGiven, align := align, sign := sign,
+                             noNeg0 := noNeg0, alt := alt, zero := zero, width := digitsVal ds, sep := sep,
+                             prec := ps.map digitsVal, type := ty }
+          match sep with
+          | none => .ok f
+          | some sc =>
+            if t = 'd' || t = 'e' || t = 'f' || t = 'g' || t = 'E' || t = 'G' || t = '%' || t = 'F' then .ok f
+            else if (t = 'b' || t = 'o' || t = 'x' || t = 'X') && sc = '_' then .ok f
+            else .err (errSepType sc t)
 
 /-- `parse_internal_render_format_spec`. -/
-def parseSpec (spec : List Char) : SpecParse :=
+def parseSpec (dflt : Char) (spec : List Char) : SpecParse :=
   match spec with
   | f :: a :: rest =>
-    if isAlign a then parseSpecTail f true (some a) rest
-    else if isAlign f then parseSpecTail ' ' false (some f) (a :: rest)
-    else parseSpecTail ' ' false none spec
-  | [a] => if isAlign a then parseSpecTail ' ' false (some a) [] else parseSpecTail ' ' false none spec
-  | [] => parseSpecTail ' ' false none []
+    if isAlign a then parseSpecTail dflt f true (some a) rest
+    else if isAlign f then parseSpecTail dflt ' ' false (some f) (a :: rest)
+    else parseSpecTail dflt ' ' false none spec
+  | [a] => if isAlign a then parseSpecTail dflt ' ' false (some a) [] else parseSpecTail dflt ' ' false none spec
+  | [] => parseSpecTail dflt ' ' false none []
 
 def pad (c : Char) (n : Nat) : List Char := List.replicate n c
 
@@ -284,9 +372,10 @@ def errUnknownCode (t : Char) (ty : String) : Exc :=
 
 /-- `str.__format__` (`format_string_internal`). -/
 def formatStr (s : List Char) (spec : List Char) : Except Exc (List Char) :=
-  match parseSpec spec with
+  match parseSpec 's' spec with
   | .ood why => .error (outOfDomain ("format spec: " ++ why))
   | .invalid => .error (errInvalidSpec spec "str")
+  | .err e => .error e
   | .ok f =>
     match f.type with
     | some t => if t = 's' then formatStrBody s f else .error (errUnknownCode t "str")
@@ -298,21 +387,72 @@ where
       if c = ' ' then .error (valueError "Space not allowed in string format specifier")
       else .error (valueError "Sign not allowed in string format specifier")
     | none =>
-      if f.align = some '=' then .error (valueError "'=' alignment not allowed in string format specifier")
-      else .ok (padAligned s f.fill (f.align.getD '<') f.width)
+      if f.noNeg0 then .error (valueError "Negative zero coercion (z) not allowed in string format specifier")
+      else if f.alt then .error (valueError "Alternate form (#) not allowed in string format specifier")
+      else if f.align = some '=' then .error (valueError "'=' alignment not allowed in string format specifier")
+      else
+        -- if precision is specified, output no more than precision characters
+        let body := match f.prec with
+          | some p => s.take p
+          | none => s
+        .ok (padAligned body f.fill (f.align.getD '<') f.width)
 
-def longTypes : List Char := ['b', 'c', 'o', 'x', 'X', 'n', 'e', 'E', 'f', 'F', 'g', 'G', '%']
+/-- presentation types that convert an int to float first -/
+def floatTypes : List Char := ['e', 'E', 'f', 'F', 'g', 'G', '%']
 
-/-- `int.__format__` (`format_long_internal`) for presentation `d`; `ty` is `int` or `bool`. -/
-def formatInt (i : Int) (ty : String) (spec : List Char) : Except Exc (List Char) :=
-  match parseSpec spec with
-  | .ood why => .error (outOfDomain ("format spec: " ++ why))
-  | .invalid => .error (errInvalidSpec spec ty)
-  | .ok f =>
-    let go : Except Exc (List Char) :=
-      let digits := (toString i.natAbs).toList
+/-- `_PyUnicode_InsertThousandsGrouping` for the grouping "every `g` digits" (`g = 0`: no grouping), written
+    right to left as the C code does: `acc` is the output so far, `digits` what is left of the number,
+    `minWidth` how many more characters zero padding still asks for. -/
+def groupLoop (g : Nat) (sep : Char) : Nat → List Char → Int → Bool → List Char → List Char
+  | 0, digits, _, _, acc => digits ++ acc                       -- not reached (fuel)
+  | fuel + 1, digits, minWidth, useSep, acc =>
+    let remaining : Int := digits.length
+    let whole : Int := max (max remaining minWidth) 1
+    let len : Int := if g = 0 then whole else min (g : Int) whole
+    let nZeros := (len - remaining).toNat
+    let nChars := (min remaining len).toNat
+    let piece := pad '0' nZeros ++ digits.drop (digits.length - nChars)
+    let acc1 := piece ++ (if useSep then sep :: acc else acc)
+    let digits1 := digits.take (digits.length - nChars)
+    let minWidth1 := minWidth - len
+    if g = 0 then acc1
+    else if digits1 = [] ∧ minWidth1 ≤ 0 then acc1
+    else groupLoop g sep fuel digits1 (minWidth1 - 1) true acc1
+
+def groupDigits (g : Nat) (sep : Char) (digits : List Char) (minWidth : Int) : List Char :=
+  groupLoop g sep (digits.length + minWidth.toNat + 2) digits minWidth false []
+
+def upperHex (c : Char) : Char := if 'a' ≤ c ∧ c ≤ 'f' then Char.ofNat (c.toNat - 32) else c
+
+/-- `format_long_internal` (with `calc_number_widths` / `fill_number`); `ty` is `int` or `bool`. -/
+def formatLong (i : Int) (f : FSpec) (t : Char) : Except Exc (List Char) :=
+  if f.prec.isSome then .error (valueError "Precision not allowed in integer format specifier")
+  else if f.noNeg0 then .error (valueError "Negative zero coercion (z) not allowed in integer format specifier")
+  else
+    -- (sign_char, prefix, digits, remainder)
+    let parts : Except Exc (Bool × List Char × List Char × List Char) :=
+      if t = 'c' then
+        if f.sign.isSome then .error (valueError "Sign not allowed with integer format specifier 'c'")
+        else if f.alt then .error (valueError "Alternate form (#) not allowed with integer format specifier 'c'")
+        else if i < -9223372036854775808 ∨ i > 9223372036854775807 then
+          .error ⟨"OverflowError", "Python int too large to convert to C long"⟩
+        else if i < 0 ∨ i > 1114111 then .error ⟨"OverflowError", "%c arg not in range(0x110000)"⟩
+        else if 55296 ≤ i ∧ i ≤ 57343 then .error (outOfDomain "format spec: type c on a surrogate code point")
+        else .ok (false, [], [], [Char.ofNat i.toNat])
+      else
+        let base : Nat := if t = 'b' then 2 else if t = 'o' then 8 else if t = 'x' || t = 'X' then 16 else 10
+        let ds := Nat.toDigits base i.natAbs
+        let ds := if t = 'X' then ds.map upperHex else ds
+        let pre : List Char :=
+          if !f.alt then []
+          else if t = 'b' then ['0', 'b'] else if t = 'o' then ['0', 'o']
+          else if t = 'x' then ['0', 'x'] else if t = 'X' then ['0', 'X'] else []
+        .ok (decide (i < 0), pre, ds, [])
+    match parts with
+    | .error e => .error e
+    | .ok (neg, pre, ds, rem) =>
       let signCs : List Char :=
-        if i < 0 then ['-']
+        if neg then ['-']
         else match f.sign with
           | some '+' => ['+']
           | some ' ' => [' ']
@@ -320,15 +460,29 @@ def formatInt (i : Int) (ty : String) (spec : List Char) : Except Exc (List Char
       let align : Char := match f.align with
         | some a => a
         | none => if f.zero then '=' else '>'
-      if align = '=' then
-        .ok (signCs ++ pad f.fill (f.width - (signCs.length + digits.length)) ++ digits)
-      else .ok (padAligned (signCs ++ digits) f.fill align f.width)
-    match f.type with
-    | none => go
-    | some t =>
-      if t = 'd' then go
-      else if longTypes.contains t then .error (outOfDomain "integer presentation type other than d")
-      else .error (errUnknownCode t ty)
+      let nonDigit := signCs.length + pre.length + rem.length
+      let minWidth : Int := if f.fill = '0' ∧ align = '=' then (f.width : Int) - nonDigit else 0
+      let (g, sc) : Nat × Char := match f.sep with
+        | none => (0, ',')
+        | some c => if c = '_' ∧ (t = 'b' || t = 'o' || t = 'x' || t = 'X') then (4, '_') else (3, c)
+      let grouped := if ds = [] then [] else groupDigits g sc ds minWidth
+      let nPad := f.width - (nonDigit + grouped.length)
+      if align = '<' then .ok (signCs ++ pre ++ grouped ++ rem ++ pad f.fill nPad)
+      else if align = '^' then .ok (pad f.fill (nPad / 2) ++ signCs ++ pre ++ grouped ++ rem ++ pad f.fill (nPad - nPad / 2))
+      else if align = '=' then .ok (signCs ++ pre ++ pad f.fill nPad ++ grouped ++ rem)
+      else .ok (pad f.fill nPad ++ signCs ++ pre ++ grouped ++ rem)
+
+/-- `int.__format__` (`_PyLong_FormatAdvancedWriter`); `ty` is `int` or `bool`. -/
+def formatInt (i : Int) (ty : String) (spec : List Char) : Except Exc (List Char) :=
+  match parseSpec 'd' spec with
+  | .ood why => .error (outOfDomain ("format spec: " ++ why))
+  | .invalid => .error (errInvalidSpec spec ty)
+  | .err e => .error e
+  | .ok f =>
+    let t := f.type.getD 'd'
+    if t = 'b' || t = 'c' || t = 'd' || t = 'o' || t = 'x' || t = 'X' || t = 'n' then formatLong i f t
+    else if floatTypes.contains t then .error (outOfDomain "format spec: float presentation type on an int")
+    else .error (errUnknownCode t ty)
 
 def errReprDomainFmt : Exc := errReprDomain
 
